@@ -442,7 +442,7 @@ func (fr *Frame) block(b *ssa.BasicBlock, entryPC *Term, entry *State) {
 				continue
 			}
 			c, ok := fr.edge[[2]int{p.Index, b.Index}]
-			if !ok {
+			if !ok || isFalse(c) {
 				continue // unreachable predecessor
 			}
 			fwdPreds = append(fwdPreds, p)
